@@ -104,6 +104,8 @@ type Engine struct {
 	kindIdx map[string]int
 
 	Obligs []*Obligation
+	Covers []*Cover
+	InfeasibleSites []string
 	Errors []string // tool errors
 	// statistics
 	Stats map[string]int
